@@ -153,7 +153,7 @@ Definition link_cmps : list cmp :=
   [CNlv F_Name; CIri F_Rel; CStr F_MediaType; CUint F_Height; CUint F_Width; CItem F_Preview; CIri F_Href;
    CStr F_HrefLang].
 
-Section Eq.
+Section Eq0.
   Variable cfg : eqcfg.
   Variable rec : item -> item -> outcome bool.   (* ItemsEqual, one level down *)
 
@@ -193,6 +193,21 @@ Section Eq.
              else all_contained i wl
          end.
 
+End Eq0.
+
+(* Everything below is parametric in the IRI comparison
+        ideq a b cs  =  a.Equals(b, cs)          (iri.go IRI.Equals; cs = checkScheme)
+   (builder b47).  Module EqG holds the generic definitions; the names without prefix that follow the module are
+   the instances with [iri_eqb] (the comparison over the plain URL grammar of Model/Url.v, Model/IriEq.v) - the
+   definitions every theorem and every table tie was stated about before - as abbreviations, so that their
+   meaning, their unfolding and every proof about them is what it was.  Model/EqualU.v instantiates the same
+   definitions with [iri_equ] (Model/IriEqU.v: IRI.Equals over net/url on all byte strings). *)
+Module EqG.
+Section Eq.
+  Variable ideq : bytes -> bytes -> bool -> bool.
+  Variable cfg : eqcfg.
+  Variable rec : item -> item -> outcome bool.   (* ItemsEqual, one level down *)
+
   Definition cmp_one (c : cmp) (ofs wfs : fields) : outcome bool :=
     match c with
     | CNlv f =>
@@ -225,7 +240,7 @@ Section Eq.
         | None => Ok true
         | Some l =>
             (* with is a non-nil ItemCollection value here *)
-            itemcoll_equals (match view_items ofs with Some ol => ol | None => [] end) (IItems false (Some l))
+            itemcoll_equals cfg rec (match view_items ofs with Some ol => ol | None => [] end) (IItems false (Some l))
         end
     | CUrl =>
         let wu := get_item F_URL wfs in
@@ -233,13 +248,13 @@ Section Eq.
         if c_url_isnil cfg then
           if is_nil wu then Ok true
           else if is_nil ou then Ok false
-          else Ok (iri_eqb (lnk wu) (lnk ou) false)
+          else Ok (ideq (lnk wu) (lnk ou) false)
         else
           match wu with
           | INil => Ok true
           | _ => match ou with
                  | INil => Ok false
-                 | _ => obind (get_link wu) (fun a => obind (get_link ou) (fun b => Ok (iri_eqb a b false)))
+                 | _ => obind (get_link wu) (fun a => obind (get_link ou) (fun b => Ok (ideq a b false)))
                  end
           end
     | CTime f =>
@@ -259,7 +274,7 @@ Section Eq.
     | CIri f =>
         match get_str f wfs with
         | [] => Ok true
-        | s => Ok (iri_eqb (get_str f ofs) s false)
+        | s => Ok (ideq (get_str f ofs) s false)
         end
     end.
 
@@ -273,9 +288,9 @@ Section Eq.
   (* Object.Equals.  The `with.IsLink() && ...` test is not modelled separately: a Link fails
      OnObject(with) just below, so both ways the answer is false and nothing can panic in between. *)
   Definition object_equals (ofs : fields) (w : item) : outcome bool :=
-    nil_guard MObject w (
+    nil_guard cfg MObject w (
     if is_item_collection w then Ok false
-    else if negb (iri_eqb (get_str F_ID ofs) (lnk w) true) then Ok false
+    else if negb (ideq (get_str F_ID ofs) (lnk w) true) then Ok false
     else if negb (fold_eqb (get_str F_Type ofs) (typ w)) then Ok false
     else match as_kind KObject w with
          | None => Ok false
@@ -284,7 +299,7 @@ Section Eq.
 
   (* IntransitiveActivity.Equals: result = Object.Equals, then the blocks may only lower it *)
   Definition intransitive_equals (ifs : fields) (w : item) : outcome bool :=
-    nil_guard MIntransitive w (
+    nil_guard cfg MIntransitive w (
     match as_kind KIntransitive w with
     | None => Ok false
     | Some wfs =>
@@ -293,7 +308,7 @@ Section Eq.
     end).
 
   Definition activity_equals (afs : fields) (w : item) : outcome bool :=
-    nil_guard MActivity w (
+    nil_guard cfg MActivity w (
     match as_kind KActivity w with
     | None => Ok false
     | Some wfs =>
@@ -302,7 +317,7 @@ Section Eq.
     end).
 
   Definition actor_equals (afs : fields) (w : item) : outcome bool :=
-    nil_guard MActor w (
+    nil_guard cfg MActor w (
     match as_kind KActor w with
     | None => Ok false
     | Some wfs =>
@@ -363,7 +378,7 @@ Section Eq.
     else match as_kind KLink w with
          | None => Ok false
          | Some wfs =>
-             if negb (iri_eqb (get_str F_ID lfs) (get_str F_ID wfs) true) then Ok false
+             if negb (ideq (get_str F_ID lfs) (get_str F_ID wfs) true) then Ok false
              else if negb (fold_eqb (get_str F_Type lfs) (get_str F_Type wfs)) then Ok false
              else all_cmp link_cmps lfs wfs
          end.
@@ -414,11 +429,11 @@ Section Eq.
   Definition items_equal_body (it w : item) : outcome bool :=
     if is_nil it || is_nil w then Ok (is_nil w && is_nil it)
     else if needs_swap it w then rec w it
-    else if is_iri w || is_iri it then Ok (iri_eqb (lnk it) (lnk w) false)
+    else if is_iri w || is_iri it then Ok (ideq (lnk it) (lnk w) false)
     else if is_item_collection it then
       if negb (is_item_collection w) then Ok false
       else match to_item_collection it with
-           | Some l => itemcoll_equals l w
+           | Some l => itemcoll_equals cfg rec l w
            | None => Ok false
            end
     else if is_object it then object_branch it w
@@ -426,14 +441,19 @@ Section Eq.
     else Ok false.
 End Eq.
 
-Fixpoint items_equal_c (cfg : eqcfg) (fuel : nat) (it w : item) : outcome bool :=
+Fixpoint items_equal_c (ideq : bytes -> bytes -> bool -> bool) (cfg : eqcfg) (fuel : nat) (it w : item) : outcome bool :=
   match fuel with
   | O => OutOfFuel
-  | S n => items_equal_body cfg (items_equal_c cfg n) it w
+  | S n => items_equal_body ideq cfg (items_equal_c ideq cfg n) it w
   end.
 
-Definition items_equal := items_equal_c cfg_fixed.
-Definition items_equal_pinned := items_equal_c cfg_pinned.
+Definition items_equal ideq := items_equal_c ideq cfg_fixed.
+Definition items_equal_pinned ideq := items_equal_c ideq cfg_pinned.
+(* iri.go IRIs.Contains(r) over the same comparison ([iris_contains] of Model/IriEq.v is the instance with iri_eqb,
+   [iris_contains_u] of Model/IriEqU.v the one with iri_equ - both by definition) *)
+Definition iris_contains (ideq : bytes -> bytes -> bool -> bool) (l : list bytes) (x : bytes) : bool :=
+  match l with [] => false | _ => existsb (fun iri => ideq x iri false) l end.
+End EqG.
 
 (* the measure of the recursion: like item_size, but an IRIs list counts its members (ItemsEqual turns
    it into an item list and compares member by member) *)
@@ -459,5 +479,30 @@ with efsize (v : fval) : nat :=
 
 (* enough fuel for every pair (theorem fuel_enough in Proofs/EqualP.v) *)
 Definition fuel_for (x y : item) : nat := 2 * (esize x + esize y).
-Definition ieq (x y : item) : outcome bool := items_equal (fuel_for x y) x y.
-Definition ieq_pinned (x y : item) : outcome bool := items_equal_pinned (fuel_for x y) x y.
+
+Module EqGI.
+Definition ieq ideq (x y : item) : outcome bool := EqG.items_equal ideq (fuel_for x y) x y.
+Definition ieq_pinned ideq (x y : item) : outcome bool := EqG.items_equal_pinned ideq (fuel_for x y) x y.
+End EqGI.
+
+(* ---- the instance with the comparison over the plain URL grammar: the names as they always were ---- *)
+Notation cmp_one := (EqG.cmp_one iri_eqb).
+Notation all_cmp := (EqG.all_cmp iri_eqb).
+Notation object_equals := (EqG.object_equals iri_eqb).
+Notation intransitive_equals := (EqG.intransitive_equals iri_eqb).
+Notation activity_equals := (EqG.activity_equals iri_eqb).
+Notation actor_equals := (EqG.actor_equals iri_eqb).
+Notation collection_equals := (EqG.collection_equals iri_eqb).
+Notation page_equals := (EqG.page_equals iri_eqb).
+Notation ordered_equals := (EqG.ordered_equals iri_eqb).
+Notation opage_equals := (EqG.opage_equals iri_eqb).
+Notation link_equals := (EqG.link_equals iri_eqb).
+Notation fields_of := EqG.fields_of.
+Notation equals_method := (EqG.equals_method iri_eqb).
+Notation object_branch := (EqG.object_branch iri_eqb).
+Notation items_equal_body := (EqG.items_equal_body iri_eqb).
+Notation items_equal_c := (EqG.items_equal_c iri_eqb).
+Notation items_equal := (EqG.items_equal iri_eqb).
+Notation items_equal_pinned := (EqG.items_equal_pinned iri_eqb).
+Notation ieq := (EqGI.ieq iri_eqb).
+Notation ieq_pinned := (EqGI.ieq_pinned iri_eqb).
